@@ -526,6 +526,9 @@ def real_lines():
             cb("<p>a_rather_long_persistent_name", var("w") + 1 + var("<p>a_rather_long_persistent_name"))
             with cb.if_(var("w"), "<", 3):
                 cb.raise_(RuntimeError, "a message with several blanks in it")
+            with cb.if_(var("w"), ">", 30):
+                # apostrophes inside the message (doubled inside a Fortran character literal) and runs of blanks
+                cb.raise_(RuntimeError, "the step's size fell   below the user's   minimum")
             cb("<t>", var("<t>") + var("<dt>"))
         code = lang.DAGCode.from_phases_list(
             [lang.ExecutionPhase(name="main", next_phase="main", statements=cb.statements)], "main")
